@@ -333,6 +333,9 @@ func cmdCheck(args []string) int {
 	var boundedEv []map[string]interface{}
 	for _, b := range bounded {
 		boundedEv = append(boundedEv, map[string]interface{}{"name": b.Name, "bound": b.Bound, "cases": b.Cases, "failures": len(b.Failures), "label": "bounded (not counted as proved)"})
+		if b.Error != "" {
+			report("bounded:"+b.Name, "the bounded stand-in could not be run on the current tree", b.Error, true)
+		}
 		for _, f := range b.Failures {
 			if kf := isKnown(b.Name + ":" + f.Class); kf != nil {
 				knownHit = append(knownHit, b.Name+":"+f.Class)
